@@ -55,6 +55,9 @@ pub const FRAGS: &[&str] = &[
     "+", "-", "<", ">", "<=", ">=", "<>", "><", "|", "||", "!!", "¦¦", "^=", "~=", "¬=", "^", "~", "¬", "∘", "#", "=*", "?", "@", "{", "}", "[", "]", "!",
     "%'", "%\"", "%%", "%(", "%)", "%=", "%^", "%~=", "%/", "'41'x", "\"41\"x", "'4'x", "'4,1'x", "'+1'x", "'ab'X", "'a'b", "'a'd", "\"a\"dt", "'a'n", "'a't", "\"&a\"d", "\"&a\"x",
     "d", "dt", "n", "t", "b", "é", "é1", "😀", "\u{a0}", "\u{2028}", ".", "data", "run", "proc", "_null_", "_all_", "corr", "readonly", "/ readonly ", "input", "put",
+    // characters on the borders between Unicode properties (Alphabetic vs XID_Start vs XID_Continue vs alphanumeric, White_Space,
+    // case mappings that are not 1:1 or map into ASCII), alone and glued to ASCII neighbours
+    "\u{903}", "\u{345}", "\u{24b6}", "\u{2118}", "\u{212e}", "\u{b7}", "\u{301}", "\u{663}", "\u{b2}", "\u{bd}", "\u{2167}", "\u{200b}", "\u{180e}", "\u{212a}", "\u{17f}", "\u{130}", "\u{131}", "\u{df}", "\u{1c5}", "\u{fb01}", "\u{85}", "\u{17f}et", "\u{212a}eep", "%\u{24b6}", "&\u{24b6}", "%\u{903}", "&\u{903}", "x\u{301}", "\u{903}y", "\u{2118}x", "e\u{301}q", "%\u{2118}(", "&\u{212e}.", "\u{b2}x", "x\u{b2}", "1\u{663}", "run\u{b7}", "\u{130}f", "%\u{131}f", "%\u{17f}tr(", "data\u{200b}",
     "\r\n", "\t", "18446744073709551615", "18446744073709551616", "0FFFFFFFFFFFFFFFFFx", "1e309", "1E+5", "1e-5x", "\\", "`", "\u{1}", "\u{feff}",
     "%sysfunc(max(", ",", ",", "=", "(", ")", ")", "x=1;", "run;", "%m;", "%m(1);", "%end; ", "%then %do;", "%else %do;", "%do i=1 %to 3;", "%do %while(", "%do %until(",
 ];
